@@ -168,8 +168,8 @@ Section Weights.
     stark_weights lnQ expQ s2f fl full = (lw, gw, sigma, full') -> gw + lw == 1.
   Proof.
     unfold stark_weights. cbv zeta.
-    destruct (Qltb (Qred (fl / full)) (1 # 100)); [intros H; inversion H; ring|].
-    destruct (Qltb (999 # 1000) (Qred (fl / full))); intros H; inversion H; ring.
+    destruct (Qltb (Qred (fl / full)) stark_l2t_low); [intros H; inversion H; ring|].
+    destruct (Qltb stark_l2t_high (Qred (fl / full))); intros H; inversion H; ring.
   Qed.
 
   Lemma stark_weights_sum cij aij bij w m ne te ts lw gw sigma full :
